@@ -355,6 +355,11 @@ class Interp:
         res = modelgen.eval_node(node, [v for v in vals if v is not None], self.prog.opset)
         if res is None:
             raise InterpError(f"{name} failed on {[None if a is None else (a.dtype, a.shape) for a in args]}")
+        for r in res:
+            if isinstance(r, np.ndarray) and r.dtype.kind == "i" and r.dtype.itemsize == 8 and r.size and int(np.abs(r // 4).max()) > 2**58:
+                # a loop whose counter the body re-assigns doubles its state until INT64 wraps around: what happens then is not defined by
+                # ONNX (and differs between kernels); the program has no meaning on this input
+                raise InterpError("integer overflow region")
         return res
 
     def truth(self, v):
@@ -619,6 +624,8 @@ class SGen:
     def gen_any(self, env):
         """An arbitrary (possibly shape-changing) expression over env: (expr, n_out)."""
         names = [n for n, v in env.items() if isinstance(v, np.ndarray)]
+        if not names:
+            return None, 0  # an environment without tensors (all names re-bound to sequences / Python values)
         n = self.pick(names)
         v = env[n]
         x = Var(n)
